@@ -98,7 +98,7 @@ def gen_patterns(rng, dirs, files):
 
 
 def _job(args):
-    from pytestarch.utils.partial_match_to_regex_converter import convert_partial_match_to_regex as conv
+    conv = rules.partial_match_converter()
     seed, n = args
     rng = random.Random(seed)
     out = dict(n=0, nontrivial=0, stats={}, violations=[], disagreements=[], pairs=[], samples=[])
